@@ -7,5 +7,5 @@ mkdir -p "$B"
 cd "$B"
 timeout 600 coqc -q -Q "$V/coq/Gen" RSP -Q "$V/coq/Model" RSP -Q "$V/coq/Spec" RSP -Q "$V/coq/Proofs" RSP -w -extraction-opaque-accessed,-extraction-logical-axiom -o "$B/Extract.vo" "$V/coq/Extract/Extract.v" > extract.log 2>&1 || { cat extract.log >&2; exit 1; }
 cp "$V"/ocaml/*.ml .
-ocamlfind ocamlopt -w -a model.mli model.ml util.ml $( [ -f sha256.ml ] && echo sha256.ml ) ops.ml driver.ml -o driver 2> ocaml.log || { cat ocaml.log >&2; exit 1; }
+ocamlfind ocamlopt -w -a model.mli model.ml util.ml $( [ -f sha256.ml ] && echo sha256.ml ) ops.ml pipe.ml driver.ml -o driver 2> ocaml.log || { cat ocaml.log >&2; exit 1; }
 echo ok
